@@ -548,7 +548,7 @@ func (g *structGen) genStruct(depth int) (desc.T, desc.V) {
 		if g.unexported && rapid.IntRange(0, 7).Draw(g.t, "unexported") == 0 {
 			f.Name = strings.ToLower(f.Name) + "x"
 			if rapid.IntRange(0, 3).Draw(g.t, "nonASCIIUnexp") == 0 {
-				f.Name = []string{"é", "ω", "д", "ñ", "ǅ", "ǲ"}[i%6] + f.Name // unexported, first letter outside ASCII (ǅ, ǲ: TITLE case is not upper case)
+				f.Name = rapid.SampledFrom([]string{"é", "ω", "д", "ñ", "ǅ", "ǲ", "ǅ"}).Draw(g.t, "unexpPrefix") + f.Name // unexported, first letter outside ASCII (ǅ, ǲ: TITLE case is not upper case)
 			}
 		} else if rapid.IntRange(0, 11).Draw(g.t, "nonASCIIName") == 0 {
 			f.Name = []string{"É", "Ω", "Д", "Ñ"}[i%4] + strings.ToLower(f.Name) // exported: Go's rule is "upper-case letter", not A-Z
